@@ -52,14 +52,16 @@ def _last_case(err):
     return [int(x) for x in cs[-1]] if cs else None
 
 
-def _classify(out, err):
+def _classify(out, err, rc=0):
     """-> None (clean) | (kind, detail)"""
+    if rc == 124:
+        return "no-return", "the case did not finish within the time limit (every case takes milliseconds natively)"
     if "Undefined Behavior" in err:
         i = err.index("error: Undefined Behavior")
         return "miri-UB", err[i:i + 1800]
     if "panicked at" in err:
         i = err.index("panicked at")
-        return "assert", err[max(0, i - 80):i + 900]
+        return ("native-alias" if "two live mutable references to one entry" in err else "assert"), err[max(0, i - 80):i + 900]
     if "DONE cases=" in out:
         return None
     return "engine", err[-1500:]
@@ -67,27 +69,40 @@ def _classify(out, err):
 
 def _found(case, kind, detail, model):
     body = BODIES[case[0]]
-    prop = "C14" if kind == "miri-UB" else "C13"
-    what = {"miri-UB": f"the interpreter ({model}) reports undefined behaviour: a live mutable reference handed out by the library was aliased",
+    prop = "C14" if kind in ("miri-UB", "native-alias") else "C13"
+    what = {"no-return": "the library call did not return",
+            "miri-UB": f"the interpreter ({model}) reports undefined behaviour: a live mutable reference handed out by the library was aliased",
+            "native-alias": "the library handed out two mutable references to the same entry (addresses compared)",
             "assert": "the body's own oracle failed"}[kind]
     return {"property": prop, "site": "alias:" + body, "cond": kind, "detail": f"{body}: {what}. case body={case[0]} mode={case[1]} a={case[2]:#b} b={case[3]:#b} ra={case[4]} rb={case[5]}\n{detail}",
             "at": "hold-all body", "occurrences": 1, "history": [], "extra": {"case": case, "model": model}}
 
 
-def _run_slices(cmd_of, cwd, env, wdir, tag):
-    """start all slices with stdout/stderr in files (a pipe would block a slice after 64 kB of CASE lines); -> [(returncode, out, err)]"""
+def _run_slices(cmd_of, cwd, env, wdir, tag, timeout_s):
+    """start all slices with stdout/stderr in files (a pipe would block a slice after 64 kB of CASE lines); -> [(returncode, out, err)];
+    a slice that is still running after timeout_s is killed and reported with returncode 124"""
     d = os.path.join(wdir, "alias")
     os.makedirs(d, exist_ok=True)
     procs = []
     for i in range(SLICES):
         fo, fe = open(os.path.join(d, f"{tag}_{i}.out"), "w"), open(os.path.join(d, f"{tag}_{i}.err"), "w")
-        procs.append((subprocess.Popen(cmd_of(i), cwd=cwd, env=env, stdout=fo, stderr=fe), fo, fe))
+        procs.append((subprocess.Popen(cmd_of(i), cwd=cwd, env=env, stdout=fo, stderr=fe, start_new_session=True), fo, fe))
     res = []
+    deadline = time.time() + timeout_s
     for p, fo, fe in procs:
-        p.wait()
+        rc = None
+        try:
+            rc = p.wait(timeout=max(1.0, deadline - time.time()))
+        except subprocess.TimeoutExpired:
+            try:
+                os.killpg(p.pid, 9)
+            except OSError:
+                pass
+            p.wait()
+            rc = 124
         fo.close()
         fe.close()
-        res.append((p.returncode, open(fo.name).read(), open(fe.name).read()[-200000:]))
+        res.append((rc, open(fo.name).read(), open(fe.name).read()[-200000:]))
     return res
 
 
@@ -100,8 +115,8 @@ def run_native(tier, seed, wdir):
     va = os.path.join(ROOT, "target", "alias", "debug", "va")
     total, per = _counts(tier)
     found, done = [], 0
-    for rc, o, e in _run_slices(lambda i: [va, "run", tier, str(i), str(SLICES)], None, None, wdir, "native"):
-        c = _classify(o, e)
+    for rc, o, e in _run_slices(lambda i: [va, "run", tier, str(i), str(SLICES)], None, None, wdir, "native", 300):
+        c = _classify(o, e, rc)
         if c is None:
             done += int(re.search(r"DONE cases=(\d+)", o).group(1))
             continue
@@ -134,16 +149,25 @@ def run_miri(tier, seed, wdir):
     code, out = _native_build()
     if code != 0:
         return {"engine": "alias", "machinery_error": "the alias crate does not build: " + out[-1500:], "found": []}
+    # the same case list natively first (2 s): a case that fails or hangs natively would fail or hang in the interpreter as well
+    pre = run_native(tier, seed, wdir)
+    if "machinery_error" in pre:
+        return pre
+    if pre["found"]:
+        pre["run"] = "hold-all-references bodies: the native pre-run already fails; the interpreter was not started"
+        return pre
     total, per = _counts(tier)
+    # Stacked Borrows judges the whole case list of the tier; Tree Borrows (thorough tier only) judges the quick list
     models = ["stacked-borrows"] if tier == "quick" else ["stacked-borrows", "tree-borrows"]
+    list_of = {"stacked-borrows": tier, "tree-borrows": "quick"}
     # build once (sysroot + crate) so that the slices only wait for the cargo lock
     b = subprocess.run(["cargo", "+nightly", "miri", "run", "--offline", "--", "noop"], cwd=CRATE, env=_env(MODELS["stacked-borrows"]), stdout=subprocess.PIPE, stderr=subprocess.STDOUT, text=True)
     if b.returncode != 0:
         return {"engine": "alias", "machinery_error": "the alias crate does not build under miri: " + b.stdout[-1500:], "found": []}
     found, done = [], 0
     for model in models:
-        for rc, o, e in _run_slices(lambda i: ["cargo", "+nightly", "miri", "run", "--offline", "--", "run", tier, str(i), str(SLICES)], CRATE, _env(MODELS[model]), wdir, model):
-            c = _classify(o, e)
+        for rc, o, e in _run_slices(lambda i: ["cargo", "+nightly", "miri", "run", "--offline", "--", "run", list_of[model], str(i), str(SLICES)], CRATE, _env(MODELS[model]), wdir, model, 6 * 3600):
+            c = _classify(o, e, rc)
             if c is None:
                 done += int(re.search(r"DONE cases=(\d+)", o).group(1))
                 continue
@@ -152,8 +176,8 @@ def run_miri(tier, seed, wdir):
                 return {"engine": "alias", "machinery_error": f"miri run exited with {rc} without a verdict: {c[1][-800:]}", "found": []}
             found.append(_found(case, c[0], c[1], model))
     spec = {"engine": "alias", "mode": "miri", "tier": tier, "models": models}
-    return {"engine": "alias", "run": f"hold-all-references bodies executed by Miri ({', '.join(models)}; {tier} case list)", "spec": spec,
-            "evaluations": done if not found else total * len(models), "distinct_outcomes": total, "cases_per_body": per, "interpreter": miri_version,
+    return {"engine": "alias", "run": f"hold-all-references bodies executed by Miri (Stacked Borrows: {tier} case list" + ("; Tree Borrows: quick case list)" if tier != "quick" else ")"), "spec": spec,
+            "evaluations": done if not found else total, "distinct_outcomes": total, "cases_per_body": per, "interpreter": miri_version,
             "exhaustive": True, "wall_s": time.time() - t0, "found": _dedup(found),
             "samples": [{"case": "body=6 mode=0 a=0b1111111 ra=3 rb=1", "meaning": "split at the root, all references of the right half held and written while the left half is navigated with find/find_exact/find_lpm/left/right/set"}]}
 
@@ -168,7 +192,12 @@ def replay(path):
             if code != 0:
                 print("MACHINERY-ERROR the alias crate does not build")
                 return 2
-            r = subprocess.run([os.path.join(ROOT, "target", "alias", "debug", "va"), "case"] + [str(x) for x in case], stdout=subprocess.PIPE, stderr=subprocess.PIPE, text=True)
+            try:
+                r = subprocess.run([os.path.join(ROOT, "target", "alias", "debug", "va"), "case"] + [str(x) for x in case], stdout=subprocess.PIPE, stderr=subprocess.PIPE, text=True, timeout=60)
+            except subprocess.TimeoutExpired:
+                verdicts.append("no-return")
+                last = "the case does not finish within 60 s"
+                continue
         else:
             r = subprocess.run(["cargo", "+nightly", "miri", "run", "--offline", "--", "case"] + [str(x) for x in case], cwd=CRATE, env=_env(MODELS[model]),
                                stdout=subprocess.PIPE, stderr=subprocess.PIPE, text=True)
